@@ -322,6 +322,9 @@ func verifHarnessCrash() {
 			_, gerr := db2.Get(kp.keys[0])
 			verifAssert(gerr == ErrKeyNotFound, id+".deleted-key-visible-after-second-merge")
 		} else {
+			if verifParam("afterval") == 1 {
+				v = verifValue("av") // any length class of the job: the write may end before, at or beyond what recovery cut away
+			}
 			verifAssert(db2.Put(kp.keys[0], v) == nil, id+".put-after-recovery-err")
 		}
 		d1 := vDump(db2, kp)
